@@ -147,6 +147,11 @@ class FnTranslator:
         self.effects = spec.get("effects", [])
         self.has_effects = False
         self.depth = 0
+        # additive extensions (sim.py anchors): see CONVENTIONS / notes/C01.md
+        self.names = spec.get("names", {})                  # python text -> Coq parameter name
+        self.drop_calls = spec.get("drop_calls", [])        # expression-statement calls that are dropped
+        self.effect_ctors = spec.get("effect_ctors", [])    # constructor calls flattened inside effect arguments
+        self.setitem_effects = spec.get("setitem_effects", [])  # `X[k] = v` recorded as effect "X[]=" [k; v]
 
     # -- helpers -----------------------------------------------------------------------------
     def err(self, node, why):
@@ -165,7 +170,8 @@ class FnTranslator:
 
     def param(self, key, ty=None):
         if key not in self.params:
-            self.params[key] = (coq_ident(key.replace("self.", "self_")), ty or self.type_of_key(key))
+            nm = self.names[key] if key in getattr(self, "names", {}) else coq_ident(key.replace("self.", "self_"))
+            self.params[key] = (nm, ty or self.type_of_key(key))
         return self.params[key]
 
     def newname(self, base):
@@ -215,6 +221,10 @@ class FnTranslator:
                 return (name, ty)
         if isinstance(node, ast.Constant):
             return self.lit(node)
+        if not isinstance(node, (ast.Name, ast.Attribute)) and self.txt(node) in self.types:
+            # an arbitrary sub-expression explicitly declared in `types` (e.g. `x in self._d`,
+            # `self._queue[0][0]`) becomes a parameter of the declared type
+            return self.param(self.txt(node))
         if isinstance(node, ast.Name):
             return self.lookup(node.id, env, node)
         if isinstance(node, ast.Attribute):
@@ -477,6 +487,14 @@ class FnTranslator:
                     return True
         return False
 
+    def _is_setitem_effect(self, tgt):
+        return isinstance(tgt, ast.Subscript) and self.txt(tgt.value) in getattr(self, "setitem_effects", [])
+
+    def _is_effect_stmt(self, n):
+        if isinstance(n, ast.Call) and self.txt(n.func) in self.effects:
+            return True
+        return isinstance(n, ast.Assign) and len(n.targets) == 1 and self._is_setitem_effect(n.targets[0])
+
     def assigned(self, stmts):
         out = []
         for s in stmts:
@@ -488,6 +506,8 @@ class FnTranslator:
                     tgt = n.targets[0]
                 elif isinstance(n, ast.AugAssign):
                     tgt = n.target
+                if tgt is not None and self._is_setitem_effect(tgt):
+                    tgt = None
                 if tgt is not None:
                     k = self.txt(tgt)
                     if k not in out:
@@ -530,22 +550,46 @@ class FnTranslator:
                 return nxt(env)  # docstring
             if isinstance(s.value, ast.Call) and self.txt(s.value.func) in ("warnings.warn", "print"):
                 return nxt(env)
+            if isinstance(s.value, ast.Call) and self.txt(s.value.func) in self.drop_calls:
+                return nxt(env)
             if isinstance(s.value, ast.Call) and self.txt(s.value.func) in self.effects:
                 args = []
+                ename = self.txt(s.value.func)
                 for a in s.value.args:
-                    v, t = self.expr(a, env)
-                    if t != "num":
-                        self.err(s, "effect argument of type %s" % t)
-                    args.append(v)
+                    if isinstance(a, ast.Call) and self.txt(a.func) in self.effect_ctors and not a.keywords:
+                        # f(Ctor(a, b)) is recorded as effect "f:Ctor" [a; b]
+                        ename += ":" + self.txt(a.func)
+                        sub = a.args
+                    else:
+                        sub = [a]
+                    for b in sub:
+                        v, t = self.expr(b, env)
+                        if t != "num":
+                            self.err(s, "effect argument of type %s" % t)
+                        args.append(v)
                 cur = env.get("$effects", ("[]", None))[0]
                 name = self.newname("effects")
                 env2 = dict(env)
                 env2["$effects"] = (name, "effects")
                 return "let %s := (List.app %s [(\"%s\", [%s])]) in\n%s" % (
-                    name, cur, self.txt(s.value.func), "; ".join(args), nxt(env2))
+                    name, cur, ename, "; ".join(args), nxt(env2))
             self.err(s, "expression statement %s" % self.txt(s)[:40])
         if isinstance(s, ast.Pass):
             return nxt(env)
+        if isinstance(s, ast.Assign) and len(s.targets) == 1 and self._is_setitem_effect(s.targets[0]):
+            tgt = s.targets[0]
+            args = []
+            for b in (tgt.slice, s.value):
+                v, t = self.expr(b, env)
+                if t != "num":
+                    self.err(s, "effect argument of type %s" % t)
+                args.append(v)
+            cur = env.get("$effects", ("[]", None))[0]
+            name = self.newname("effects")
+            env2 = dict(env)
+            env2["$effects"] = (name, "effects")
+            return "let %s := (List.app %s [(\"%s[]=\", [%s])]) in\n%s" % (
+                name, cur, self.txt(tgt.value), "; ".join(args), nxt(env2))
         if isinstance(s, (ast.Assign, ast.AugAssign)):
             if isinstance(s, ast.Assign):
                 if len(s.targets) != 1:
@@ -598,16 +642,43 @@ class FnTranslator:
             c, tc = self.expr(s.test, env)
             if tc != "bool":
                 self.err(s, "non-boolean if test: %s" % self.txt(s.test))
+            narrow = None
+            cond = lambda a, b: "(if %s then\n%s\nelse\n%s)" % (c, a, b)
+            nt = self._none_test(s.test)
+            if nt is not None and self.spec.get("narrow_if"):
+                # additive extension (opt-in): `if x is None: A else: B` on an optional x becomes a
+                # `match`, and B (or A for `is not None`) sees x unwrapped
+                xnode, is_none = nt
+                xs, tx = self.expr(xnode, env)
+                if tx.startswith("opt"):
+                    inner = self.newname(self.txt(xnode))
+                    narrow = ("else" if is_none else "body", self.txt(xnode), (inner, "num"))
+                    if is_none:
+                        cond = lambda a, b: "(match %s with None =>\n%s\n| Some %s =>\n%s end)" % (xs, a, inner, b)
+                    else:
+                        cond = lambda a, b: "(match %s with None =>\n%s\n| Some %s =>\n%s end)" % (xs, b, inner, a)
+
+            def branch_envs(e):
+                eb = ee = e
+                if narrow is not None:
+                    en = dict(e)
+                    en[narrow[1]] = narrow[2]
+                    if narrow[0] == "else":
+                        ee = en
+                    else:
+                        eb = en
+                return eb, ee
             if self.has_exit(s.body) or self.has_exit(s.orelse):
-                a = self.block(s.body, env, nxt)
-                b = self.block(s.orelse, env, nxt)
-                return "(if %s then\n%s\nelse\n%s)" % (c, a, b)
+                env_body, env_else = branch_envs(env)
+                a = self.block(s.body, env_body, nxt)
+                b = self.block(s.orelse, env_else, nxt)
+                return cond(a, b)
             W = self.assigned(s.body + s.orelse)
             # branch-local temporaries (assigned on one branch only, undefined before) are not
             # merged; a later use of one is an unbound name and fails closed
             Wb, We = self.assigned(s.body), self.assigned(s.orelse)
             W = [k for k in W if k in env or k.startswith("self.") or (k in Wb and k in We)]
-            if self.has_effects and any(isinstance(n, ast.Call) and self.txt(n.func) in self.effects
+            if self.has_effects and any(self._is_effect_stmt(n)
                                         for st in s.body + s.orelse for n in ast.walk(st)):
                 W = W + ["$effects"]
                 if "$effects" not in env:
@@ -633,8 +704,9 @@ class FnTranslator:
                     if k in e:
                         types.setdefault(k, e[k][1])
                 return tup(e)
-            a = self.block(s.body, env, tup_t)
-            b = self.block(s.orelse, env, tup_t)
+            env_body, env_else = branch_envs(env)
+            a = self.block(s.body, env_body, tup_t)
+            b = self.block(s.orelse, env_else, tup_t)
             env2 = dict(env)
             names = []
             for k in W:
@@ -642,7 +714,7 @@ class FnTranslator:
                 names.append(n)
                 env2[k] = (n, types.get(k, self.type_of_key(k)))
             pat = names[0] if len(names) == 1 else "'(" + ", ".join(names) + ")"
-            return "let %s := (if %s then\n%s\nelse\n%s) in\n%s" % (pat, c, a, b, nxt(env2))
+            return "let %s := %s in\n%s" % (pat, cond(a, b), nxt(env2))
         self.err(s, "statement %s" % type(s).__name__)
 
     # -- entry points ------------------------------------------------------------------------
@@ -668,8 +740,9 @@ class FnTranslator:
         # `drop_args=[...]`: arguments that are only used through declared attributes
         # (`other.precedence`) or not at all in an addressed expression get no binder of their own
         arg_params = [k for k in self.argnames if k not in inline_defaults and k not in spec.get("drop_args", [])]
-        for k in arg_params:
-            if not spec.get("only_used_args"):     # (additive, C04) path anchors may omit unused arguments
+        # only_used_args (C04) / prune_args (C01): only the arguments actually used become parameters
+        if not spec.get("only_used_args") and not spec.get("prune_args"):
+            for k in arg_params:
                 self.param(k)
         if "expr_path" in spec:
             node = resolve_path(fn, spec["expr_path"], self.where)
@@ -678,7 +751,7 @@ class FnTranslator:
             self.needs_record = False
             body, rt = self.expr(node, env)
             self.ret_type = rt
-        elif "stmt_path" in spec:
+        elif "stmt_path" in spec and "result" in spec:
             # (additive, C04) translate one statement (or a statement list) addressed by path and
             # return the final value of the local variable named by spec["result"]
             node = resolve_path(fn, spec["stmt_path"], self.where)
@@ -698,6 +771,17 @@ class FnTranslator:
             body = self.block(stmts, env, fin)
         else:
             stmts = fn.body
+            if "stmt_path" in spec:
+                # translate a contiguous slice of statements addressed by path, e.g. "body[2].body[3:5]"
+                m = re.match(r"^(.*)\[(\d+):(\d+)\]$", spec["stmt_path"])
+                if not m:
+                    raise Untranslatable("%s: stmt_path %s must end in [a:b]" % (self.where, spec["stmt_path"]))
+                lst = resolve_path(fn, m.group(1), self.where)
+                if not isinstance(lst, list) or int(m.group(3)) > len(lst):
+                    raise Untranslatable("%s: stmt_path %s does not resolve" % (self.where, spec["stmt_path"]))
+                stmts = lst[int(m.group(2)):int(m.group(3))]
+                if not stmts or not all(isinstance(x, ast.stmt) for x in stmts):
+                    raise Untranslatable("%s: stmt_path %s is not a statement list" % (self.where, spec["stmt_path"]))
             self.has_raise = any(isinstance(n, ast.Raise) for s in stmts for n in ast.walk(s))
             self.written = [k for k in self.assigned(stmts) if k.startswith("self.")]
             if self.ret_type_hint is None:
@@ -709,7 +793,7 @@ class FnTranslator:
                     self.ret_type_hint = "bool"
                 else:
                     self.ret_type_hint = "num"
-            self.has_effects = any(isinstance(n, ast.Call) and self.txt(n.func) in self.effects
+            self.has_effects = any(self._is_effect_stmt(n)
                                    for st in stmts for n in ast.walk(st))
             self.needs_record = bool(self.written) or self.has_effects
             body = self.block(stmts, env, lambda e: self.finish(e, ("tt", "unit")))
